@@ -321,7 +321,7 @@ func c12Measure(c *Client, stack string, onlyH1 bool, k int) (p c12Probe, panicT
 
 func TestVerif_C12_cfg(t *testing.T) {
 	s := verifh.New(t, "C12", "c12cfg",
-		"random sequences (0..7) of the client's TLS setters — SetRootCertFromString/SetRootCertsFromFile (4 CAs), Enable/DisableInsecureSkipVerify, SetCerts, GetTLSClientConfig() mutation of ServerName/RootCAs, Client/Transport.SetTLSClientConfig (incl. nil, varied NextProtos), Clone, EnableHTTP3 at any point — then, per stack h1 (persistConn.addTLS, onlyH1 on/off) / h2 (newTLSConfig via the DialTLS seam) / h3 (RoundTripper.dial via the Dial seam), a real TLS handshake with the config that stack builds against a tls.Server with a certificate of CA k (SAN origin.test, c12.example) requesting a client certificate; observable = (SNI, offered ALPN, accepted, client cert presented); non-trivial = at least one trust/name/cert setter in the sequence")
+		"random sequences (0..7) of the client's TLS setters, followed 0..2 times by [connections of the stack(s) to the same host, then 1..4 more setters] (settings changed in place / replaced after first use), — SetRootCertFromString/SetRootCertsFromFile (4 CAs), Enable/DisableInsecureSkipVerify, SetCerts, GetTLSClientConfig() mutation of ServerName/RootCAs, Client/Transport.SetTLSClientConfig (incl. nil, varied NextProtos), Clone, EnableHTTP3 at any point — then, per stack h1 (persistConn.addTLS, onlyH1 on/off) / h2 (newTLSConfig via the DialTLS seam) / h3 (RoundTripper.dial via the Dial seam), a real TLS handshake with the config that stack builds against a tls.Server with a certificate of CA k (SAN origin.test, c12.example) requesting a client certificate; observable = (SNI, offered ALPN, accepted, client cert presented); non-trivial = at least one trust/name/cert setter in the sequence")
 	r := s.Rand()
 	dir := t.TempDir()
 	n := verifh.N(240, 12000)
@@ -341,6 +341,29 @@ func TestVerif_C12_cfg(t *testing.T) {
 					toks = append(toks, op.tok)
 					if op.tok != "clone" {
 						nontriv = true
+					}
+				}
+			}
+			// "settings changed after first use": the SAME client first makes 1..2 connections of this
+			// stack (and sometimes of the others) to the SAME host, then more setters follow — in place
+			// (helpers, accessor mutation) or by replacement — and the connection measured is the next
+			// NEW one. Model: the `use` op is a no-op (Props.C12.set_after_use).
+			for round := r.Intn(3); round > 0; round-- {
+				for _, st := range []string{"h1", "h2", "h3"} {
+					if st == stack || r.Intn(4) == 0 {
+						c12Measure(c, st, false, r.Intn(4))
+					}
+				}
+				toks = append(toks, "use")
+				c12Count(s, "changed-after-use")
+				for j := 1 + r.Intn(4); j > 0; j-- {
+					op := c12GenOp(s, dir)
+					c = op.apply(c)
+					if op.tok != "" {
+						toks = append(toks, op.tok)
+						if op.tok != "clone" {
+							nontriv = true
+						}
 					}
 				}
 			}
@@ -379,7 +402,7 @@ func TestVerif_C12_cfg(t *testing.T) {
 			s.Case(line, p.canon(), true, class, nontriv, human)
 		}
 	}
-	for _, must := range []string{"stack:h1", "stack:h2", "stack:h3", "accepted", "rejected", "client-cert-presented", "op:Clone", "op:SetTLSClientConfig", "op:SetTLSClientConfig(nil)", "op:SetRootCertsFromFile", "op:Get.RootCAs=pool", "op:EnableInsecureSkipVerify"} {
+	for _, must := range []string{"changed-after-use", "stack:h1", "stack:h2", "stack:h3", "accepted", "rejected", "client-cert-presented", "op:Clone", "op:SetTLSClientConfig", "op:SetTLSClientConfig(nil)", "op:SetRootCertsFromFile", "op:Get.RootCAs=pool", "op:EnableInsecureSkipVerify"} {
 		if c12Hist[s][must] == 0 {
 			t.Errorf("generator never reached bucket %q", must)
 		}
